@@ -58,7 +58,8 @@ func VerifC05_pipeDone() {
 		rs := p.DoMulti(ctx, verifIDCmd(1), verifIDCmd(2))
 		verifAssert(rs.s[0].NonRedisError() == context.Canceled && rs.s[1].NonRedisError() == context.Canceled, "context error returned for the batch")
 	case 2:
-		s := p.DoStream(ctx, nil, verifIDCmd(1))
+		pl := newPool(1, deadFn(), 0, 0, func(context.Context) wire { return p })
+		s := pl.Acquire(context.Background()).DoStream(ctx, pl, verifIDCmd(1))
 		verifAssert(s.Error() == context.Canceled, "context error returned for the stream")
 	default:
 		err := p.Receive(ctx, verifSubCmd("ch"), func(PubSubMessage) {})
